@@ -144,6 +144,14 @@ type TableInstance struct {
 	involvingModuleInstancesMutex sync.RWMutex
 }
 
+// InvolvingModuleInstances returns the module instances whose functions this table may reference: the instance that
+// defined it and, when it is exported, every instance that imported it.
+func (t *TableInstance) InvolvingModuleInstances() []*ModuleInstance {
+	t.involvingModuleInstancesMutex.RLock()
+	defer t.involvingModuleInstancesMutex.RUnlock()
+	return append([]*ModuleInstance(nil), t.involvingModuleInstances...)
+}
+
 // ElementInstance represents an element instance in a module.
 //
 // See https://www.w3.org/TR/2022/WD-wasm-core-2-20220419/exec/runtime.html#element-instances
